@@ -162,7 +162,7 @@ def errStr : ErrClass → String
   | .invalidPlaylist => "content"     -- same text as `playlist.Unmarshal`'s own "invalid playlist"
   | .zeroTimeScale => "zerots" | .renditionMultiTrack => "rendmulti" | .noSupportedTracks => "nosupported"
   | .tooManyTracks => "toomany" | .noLeadingData => "noleading" | .mixedContainers => "mixed" | .dtsRtcTooBig => "dtsrtc"
-  | .notEnoughSegments => "notenough" | .noSegments => "nosegments" | .nextSegmentNotFound => "nextnotfound"
+  | .notEnoughSegments => "notenough" | .noSegments => "content" | .nextSegmentNotFound => "nextnotfound"
   | .playbackTooLate => "toolate" | .hintDisappeared => "hintgone" | .noVariants => "novariants" | .noGroup => "nogroup"
   | .terminated => "terminated"
 
